@@ -51,6 +51,18 @@ CHECKS = {
  'C15': dict(tech='table-driven fault injection on arguments; error-handler interception, checksums and heap balance around each call',
    text='Every single documented violation and pairs of violations for both drivers and six computational routines in four precisions; the harness replaces xerbla_ (a documented override point) to record (routine, position) and checks info, exactly-once reporting, byte-level immutability of all arguments, heap balance (ASan allocator statistics or mallinfo2) and thread census.',
    note='Positions are transcribed from the routines header comments; B/X type checks are only expected from routines that document them.', ref='5/C15'),
+ 'C08': dict(tech='runtime oracle over call histories: per-call reconstruction/residual/validator, extended-precision replay of the old pivot order, checksums around reuse calls',
+   text='Random call sequences on one pattern (first factor, refactor with/without pivot reuse and new values, reuse-solves, destroy and start over) with thread counts varying between calls and both memory modes; after every call the factors are reconstructed against the values current at that call; with pivot reuse an extended-precision replay decides whether perm_r must be identical or must change; reuse-solves must leave A, L, U and permutations bit-identical.',
+   note='Histories are sampled (length <=4 quick, <=10 thorough); replay bands of 1e-6 around the threshold are undecidable and counted.', ref='5/C08'),
+ 'C14': dict(tech='fault enumeration: every allocation request failed in turn behind USER_MALLOC; caller workspaces of graded sizes under ASan; bitwise comparison of memory modes',
+   text='For each small configuration a counting run measures the K allocation requests of a driver call and request k and all later ones fail for every k=1..K (ASan+UBSan build); caller workspaces from 0 to 2x the query estimate are malloc blocks with red zones; lwork=-1 runs on sentinel-filled L/U; sufficient-workspace 1-thread runs must equal the internally allocated run bit for bit and keep every L/U array inside the buffer.',
+   note='Unchecked NULLs and undersized workspaces are known findings (listed); enforced for them: no hang, no silent success, diagnostic on exit.', ref='5/C14'),
+ 'C17': dict(tech='LeakSanitizer + sanitizer allocator statistics around repeated call sequences of every call class',
+   text='Call sequences by class (factor/solve/destroy, refactor chains, complete simple and expert driver calls, singular calls, workspace queries through p?gstrf and through the driver, user workspace) are repeated 3, 5 and 50 times in one ASan process; the live heap after repetition k must equal that after repetition 2, LeakSanitizer names any block left at exit, the thread census is unchanged.',
+   note='One thread count per case (the C runtime caches per-thread structures); allocation-failure returns are covered by C14 runs without leak accounting.', ref='5/C17'),
+ 'C18': dict(tech='differential runtime check: output digest of a probe call in a fresh process vs after prefix histories in the same process',
+   text='Probe calls (first factorization + solve, complete driver calls; 1 thread, built-in kernels) are run fresh and after single and paired prefix histories (other sizes/families/tuning, refactor chains, sufficient and insufficient user workspace, singular calls, queries, 8-thread runs); every output byte is digested and must be identical.',
+   note='Prefixes in another precision are not exercised (one precision per probe binary).', ref='5/C18'),
 }
 checks = []
 for pid, d in CHECKS.items():
@@ -61,7 +73,7 @@ for pid, d in CHECKS.items():
         'evidence_file': '/verif/evidence/%s.json' % pid,
         'replay_cmd_template': 'python3 /verif/check.py %s --replay {path}' % pid,
         'engine': 'probe+monitors',
-        'level_claimed': {'category': 'exploration', 'text': d['text'], 'design_ref': 'DESIGN.md section ' + d['ref']},
+        'level_claimed': {'category': 'fault_enumeration' if pid == 'C14' else 'exploration', 'text': d['text'], 'design_ref': 'DESIGN.md section ' + d['ref']},
         'level_note': d['note'],
         'technique': d['tech'],
     })
